@@ -76,7 +76,6 @@ Proof.
   apply N.neq_0_lt_0. apply N.pow_nonzero. discriminate.
 Qed.
 
-Definition bytes_bits (l : list N) : bits := flat_map (fun b => N_to_bits 8 b) l.
 Lemma bytes_bits_app a b : bytes_bits (a ++ b) = bytes_bits a ++ bytes_bits b.
 Proof. unfold bytes_bits. apply flat_map_app. Qed.
 Lemma bytes_bits_length l : length (bytes_bits l) = (8 * length l)%nat.
@@ -129,16 +128,7 @@ Proof.
   unfold ret. rewrite app_nil_r. unfold rev'. rewrite <- rev_alt. rewrite rev_involutive. reflexivity.
 Qed.
 
-(* ------------------------------------------------------------------ the stored-stream writer *)
-(* BrotliStoreUncompressedMetaBlock for every chunk (header, JumpToByteBoundary, the bytes), then
-   the empty last meta-block *)
-Fixpoint store_chunks (chunks : list (list N)) (out : bits) : option bits :=
-  match chunks with
-  | [] => write_empty_last_meta_block out
-  | c :: t => obind (store_uncompressed_meta_block_header (N.of_nat (length c)) out)
-                    (fun o1 => store_chunks t (jump_to_byte_boundary o1 ++ bytes_bits c))
-  end.
-
+(* ------------------------------------------------------------------ the stored-stream writer (model/MetaBlockHeader.v: store_chunks) *)
 Definition chunk_ok (c : list N) : Prop := 1 <= N.of_nat (length c) /\ N.of_nat (length c) <= 2 ^ 24 /\ Forall (fun b => b < 256) c.
 
 Section Stored.
